@@ -44,7 +44,8 @@ inline std::string word_str(const Word& w) {
 // ------------------------------------------------------------------ immediates and mod bytes
 inline std::vector<uint32_t> imm_set(bool thorough) {
 	std::vector<uint32_t> v = { 0, 1, 2, 3, 13, 14, 31, 32, 63, 64, 65, 0xFF, 0x100, 0xFFF, 0x1000, 0x1001, 0xFFFF, 0x10000, 0x10001, 0xFFF000, 0xFFFFFF, 0x1000000, 0x1000001, 0xFF000001u,
-		0x7FFFFFFF, 0x80000000u, 0x80000001u, 0xFFFFFFFFu, 0xFFFFFFFEu, 16376, 16384, 16392, 262136, 262144, 2097144, 2097152, 2097160, 0x12345678, 0xDEADBEEFu, 3234567890u, 0x55555555, 0xFFFF0000u, 0x00FFF001 };
+		0x7FFFFFFF, 0x80000000u, 0x80000001u, 0xFFFFFFFFu, 0xFFFFFFFEu, 16376, 16384, 16392, 262136, 262144, 2097144, 2097152, 2097160, 0x12345678, 0xDEADBEEFu, 3234567890u, 0x55555555, 0xFFFF0000u, 0x00FFF001,
+		0x7F, 0x80, 0xFFFFFF80u, 0xFFFFFF7Fu, 0x7FFF, 0x8000, 0xFFFF8000u };   // narrow two's-complement edges a size optimisation could introduce (DESIGN.md 8.7)
 	if (thorough) {
 		for (uint32_t x : { 12u, 33u, 62u, 0xAAAAAAAAu, 0xFFFFF000u, 0xFF000000u, 0x00FF00FFu, 0x80008000u, 0x7FFF8000u, 0xFFFF8000u, 0xFFFF7FFFu, 262152u, 0x001FFFF8u, 0x003FFFF8u }) v.push_back(x);
 		for (int k = 1; k <= 32; ++k) { uint64_t p = 1ull << k; v.push_back((uint32_t)(p - 1)); v.push_back((uint32_t)p); v.push_back((uint32_t)(p + 1)); v.push_back((uint32_t)(0 - p)); v.push_back((uint32_t)(0 - p - 1)); v.push_back((uint32_t)(1 - p)); }
